@@ -24,7 +24,7 @@ RULE = ("keys of every type (secrets >= 16 octets) entered as JWK / PEM / DER wi
         "with the key, with the ephemeral private key captured by wrapping ECKey/OKPKey.generate_key. Scanner: JSON text, every string "
         "leaf, every dot-separated segment and PEM body decoded as base64url / base64 / hex; none may contain a secret value (d, p, q, dp, "
         "dq, qi, k, ephemeral d) as raw big-endian octets (minimal or fixed width) nor its base64url / base64 / hex spelling; public "
-        "dict exports contain none of the member names d, p, q, dp, dq, qi, oth, k. Keys generated with private=False through every generating entry point (key class, JWKRegistry positional/keyword, KeySet.generate_key_set) must be public-only in every export; a public key handed private-flagged members as extra parameters exports none of them publicly; an ephemeral key preset by the caller (Recipient.ephemeral_key, with kid / use parameters) leaves no private member in epk. A private export requested from a public-only key "
+        "dict exports contain none of the member names d, p, q, dp, dq, qi, oth, k. Keys generated with private=False through every generating entry point (key class, JWKRegistry positional/keyword, KeySet.generate_key_set) must be public-only in every export; a public key handed private-flagged members as extra parameters exports none of them publicly; an ephemeral key preset by the caller (Recipient.ephemeral_key, with kid / use parameters) leaves no private member in epk; a public key stays public when the caller afterwards completes the dict it was imported from. A private export requested from a public-only key "
         "must raise. Positive controls (private export, planted secret) must be flagged in every shard. distinct = (key class, output kind).")
 ASSUMPTIONS = ["substring search is meaningful for secrets >= 16 octets (chance collisions negligible)",
                "the scanner sees octets and their usual text spellings; a secret transformed by a keyed or one-way function is out of reach"]
